@@ -9,9 +9,13 @@ CONSTANTS ContigLen, MaxEnd, Positions, MapQs, MinQs, TwoReads
 Cigars == {<<<<0, 3>>>>, <<<<4, 1>>, <<0, 2>>>>, <<<<0, 2>>, <<4, 2>>>>, <<<<0, 1>>, <<2, 1>>, <<0, 1>>>>,
            <<<<7, 1>>, <<8, 1>>, <<7, 1>>>>, <<<<0, 1>>, <<1, 2>>, <<0, 2>>>>}
 
-Flags == {"none", "dup", "sec", "unmap", "qcfail"}
+(* the four excluding flags, each alone, and every OTHER flag bit alone (paired, proper pair, mate unmapped,   *)
+(* reverse, mate reverse, first, second, supplementary): "every flag combination" -- those must still count    *)
+Flags == {"none", "dup", "sec", "unmap", "qcfail", "x1", "x2", "x8", "x16", "x32", "x64", "x128", "x2048"}
+XBits(f) == CASE f = "x1" -> 1 [] f = "x2" -> 2 [] f = "x8" -> 8 [] f = "x16" -> 16 [] f = "x32" -> 32
+              [] f = "x64" -> 64 [] f = "x128" -> 128 [] f = "x2048" -> 2048 [] OTHER -> 0
 Read(p, cg, f, q) == [c |-> 1, pos |-> p, cig |-> cg, dup |-> f = "dup", sec |-> f = "sec", unmap |-> f = "unmap",
-                      qcfail |-> f = "qcfail", mapq |-> q]
+                      qcfail |-> f = "qcfail", mapq |-> q, xflag |-> XBits(f)]
 RefLen(cg) == ISum([k \in 1..Len(cg) |-> IF cg[k][1] \in {0, 2, 3, 7, 8} THEN cg[k][2] ELSE 0])
 Reads1 == {Read(p, cg, f, q) : p \in Positions, cg \in Cigars, f \in Flags, q \in MapQs}
 Fits(rd) == rd.pos + RefLen(rd.cig) <= ContigLen
